@@ -24,7 +24,8 @@ vars == <<phase, q, inst, from, to, hist>>
 MView == <<phase, q, from, to>>
 
 WindowsFor(u) ==
-    CASE u = "H" -> {<<Hour(2019, 12, 31, 0), Hour(2020, 1, 2, 0)>>, <<Hour(2020, 2, 28, 12), Hour(2020, 3, 1, 12)>>}
+    CASE u = "H" -> {<<Hour(2019, 12, 31, 0), Hour(2020, 1, 2, 0)>>, <<Hour(2020, 2, 28, 12), Hour(2020, 3, 1, 12)>>,
+                     <<Hour(2021, 2, 28, 20), Hour(2021, 3, 1, 4)>>}   \* same month, day, hour as a year before
       [] u = "D" -> {<<Hour(2019, 12, 29, 0), Hour(2020, 1, 3, 0)>>, <<Hour(2020, 2, 27, 0), Hour(2020, 3, 3, 0)>>,
                      <<Hour(2021, 2, 27, 0), Hour(2021, 3, 2, 0)>>}
       [] u = "M" -> {<<Hour(2019, 10, 1, 0), Hour(2020, 4, 1, 0)>>, <<Hour(2020, 12, 1, 0), Hour(2021, 3, 1, 0)>>}
